@@ -353,14 +353,29 @@ define(
 
 define(
     'C06', 'exploration',
-    [('tbrmmdiagnostics', [DIAG + 'tbrfit', DIAG + 'pretestfit'], False)],
-    ENGINE_TRUST[:3] + ['NumPy/SciPy ledger (uninterpreted)'],
+    [('tbrmmdiagnostics', [DIAG + 'tbrfit', DIAG + 'pretestfit'], False),
+     ('tbr', None, True)],
+    ENGINE_TRUST[:3] + [
+        'NumPy/SciPy ledger (uninterpreted): frozen t distribution with '
+        'median / ppf / cdf / scale as functions of the distribution; '
+        'reshape, DataFrame(dict), df[names], tail keep the columns',
+        'ASSUMED contracts (bodies not verified): '
+        'TBR.causal_cumulative_distribution returns the posterior of the '
+        'object for the given rescaling; TBR.causal_effect returns a series',
+        'lemmas: quantiles of a distribution are non-decreasing in p and the '
+        'median is the 0.5 quantile'],
     ['floats as reals'],
     'Proved: the design-side TBR fit returns n_test (dy - b dx), the Kerman '
-    'scale at t = n_test and half-width = t-quantile x scale.  The '
-    'analysis-side posterior on every analysed day, its invariance to row '
-    'order / geos per group / unassigned rows, and the summary algebra are a '
-    'bounded run-time contract against a plain-NumPy oracle.',
+    'scale at t = n_test and half-width = t-quantile x scale; TBR.summary '
+    'raises ValueError exactly for tails not in {1, 2} or level outside '
+    '[0, 1] and otherwise reports estimate = posterior median, lower = '
+    'quantile at (1 - level)/tails, upper = quantile at 1 or 1 - '
+    '(1 - level)/2, precision = |lower - median|, scale = posterior scale; '
+    'lemma: lower <= estimate <= upper and precision = estimate - lower '
+    'when the lower tail probability is <= 0.5 (the all-levels clause is the '
+    'known finding).  The posterior itself on every analysed day (vs Kerman '
+    'eq. 5) and its invariance to row order / geos per group / unassigned '
+    'rows are a bounded run-time contract against a plain-NumPy oracle.',
     'DESIGN.md section 7, C06',
     'Level is the weaker (bounded) one.')
 
